@@ -125,41 +125,58 @@ def lexOper (st : St) : Except Nat St :=
   else if startsWith st.rest [0x6d, 0x6f, 0x64] || startsWith st.rest [0x64, 0x69, 0x76] then .ok (st.push .operMath 3)
   else .error st.pos
 
+/-- last part of the `if … else if …` chain: the operators written with special characters, then the two branches for
+`*` and names -/
+def lexChar4 (st : St) (c : UInt8) (r : Bytes) : Except Nat St :=
+  if c == 0x21 && r.head? == some 0x3d then .ok (st.push .operNequal 2)
+  else if (c == 0x3c || c == 0x3e) && r.head? == some 0x3d then .ok (st.push .operComp 2)
+  else if c == 0x7c then .ok (st.push .operUni 1)
+  else if c == 0x2b || c == 0x2d then .ok (st.push .operMath 1)
+  else if c == 0x3d then .ok (st.push .operEqual 1)
+  else if c == 0x3c || c == 0x3e then .ok (st.push .operComp 1)
+  else if operCtx st.acc then lexOper st
+  else lexName st
+
+/-- third part: Number, VariableReference, `/` and `//` -/
+def lexChar3 (st : St) (c : UInt8) (r : Bytes) : Except Nat St :=
+  if c == 0x2e || Path.isDigit c then .ok (st.push .number (Path.scanNum (c :: r)).1.length)
+  else if c == 0x24 then
+    match Path.ncname r with
+    | none => .error (st.pos + 1)
+    | some n =>
+      if (r.drop n).head? == some 0x3a then .error (st.pos + 1)
+      else .ok ({ st with pos := st.pos + 1, rest := r }.push .varref n)
+  else if c == 0x2f then
+    if r.head? == some 0x2f then .ok (st.push .operRpath 2) else .ok (st.push .operPath 1)
+  else lexChar4 st c r
+
+/-- second part: `..`, `.`, `@`, `,`, Literal -/
+def lexChar2 (st : St) (c : UInt8) (r : Bytes) : Except Nat St :=
+  if c == 0x2e && r.head? == some 0x2e then .ok (st.push .ddot 2)
+  else if c == 0x2e && !(Path.isDigit (r.headD 0)) then .ok (st.push .dot 1)
+  else if c == 0x40 then .ok (st.push .at 1)
+  else if c == 0x2c then .ok (st.push .comma 1)
+  else if c == 0x27 || c == 0x22 then
+    match Path.scanLit c r with
+    | none => .error st.pos
+    | some (body, _) => .ok (st.push .literal (body.length + 2))
+  else lexChar3 st c r
+
+/-- the `if … else if …` chain of the loop body on the byte `c` at `parsed` and the bytes `r` after it (cut into four
+definitions in the order of the C code) -/
+def lexChar (st : St) (c : UInt8) (r : Bytes) : Except Nat St :=
+  if c == 0x28 then .ok ((reclassify st).push .par1 1)
+  else if c == 0x29 then .ok (st.push .par2 1)
+  else if c == 0x5b then .ok (st.push .brack1 1)
+  else if c == 0x5d then .ok (st.push .brack2 1)
+  else lexChar2 st c r
+
 /-- one iteration of the loop body up to and including `exp_add_token` (white space is skipped by `lexLoop`); the error
 carries the value of `parsed` -/
 def lexStep (st : St) : Except Nat St :=
   match st.rest with
   | [] => lexName st               -- only reachable for an all-white-space string: the NUL is no name start
-  | c :: r =>
-    if c == 0x28 then .ok ((reclassify st).push .par1 1)
-    else if c == 0x29 then .ok (st.push .par2 1)
-    else if c == 0x5b then .ok (st.push .brack1 1)
-    else if c == 0x5d then .ok (st.push .brack2 1)
-    else if c == 0x2e && r.head? == some 0x2e then .ok (st.push .ddot 2)
-    else if c == 0x2e && !(Path.isDigit (r.headD 0)) then .ok (st.push .dot 1)
-    else if c == 0x40 then .ok (st.push .at 1)
-    else if c == 0x2c then .ok (st.push .comma 1)
-    else if c == 0x27 || c == 0x22 then
-      match Path.scanLit c r with
-      | none => .error st.pos
-      | some (body, _) => .ok (st.push .literal (body.length + 2))
-    else if c == 0x2e || Path.isDigit c then .ok (st.push .number (Path.scanNum (c :: r)).1.length)
-    else if c == 0x24 then
-      match Path.ncname r with
-      | none => .error (st.pos + 1)
-      | some n =>
-        if (r.drop n).head? == some 0x3a then .error (st.pos + 1)
-        else .ok ({ st with pos := st.pos + 1, rest := r }.push .varref n)
-    else if c == 0x2f then
-      if r.head? == some 0x2f then .ok (st.push .operRpath 2) else .ok (st.push .operPath 1)
-    else if c == 0x21 && r.head? == some 0x3d then .ok (st.push .operNequal 2)
-    else if (c == 0x3c || c == 0x3e) && r.head? == some 0x3d then .ok (st.push .operComp 2)
-    else if c == 0x7c then .ok (st.push .operUni 1)
-    else if c == 0x2b || c == 0x2d then .ok (st.push .operMath 1)
-    else if c == 0x3d then .ok (st.push .operEqual 1)
-    else if c == 0x3c || c == 0x3e then .ok (st.push .operComp 1)
-    else if operCtx st.acc then lexOper st
-    else lexName st
+  | c :: r => lexChar st c r
 
 /-- number of leading white-space bytes -/
 def wsLen : Bytes → Nat
